@@ -131,6 +131,23 @@ def check_help(cx, rep):
     if rows is not None:
         need('meta_name_value_2_path', 'p="path"', rows, ends('Expr::Lit', 'Lit::Str'), lambda v: v == 'str.parse()', '`p = "a::b"` must parse the string as a path')
         need('meta_name_value_2_path', 'p=path', rows, ends('Expr::Path'), lambda v: v == 'Ok(path.path.clone())', '`p = a::b` must yield that path')
+        # `p = <T as Trait>::f` is an `Expr::Path` too; its `path` is only `Trait::f`: taking `.path` of a qualified path silently names
+        # another function.  The arm must be restricted to paths without a qualified self (the other spellings refuse them).
+        fpath = find(cx, 'meta_name_value_2_path')
+        for r in rows:
+            if ends('Expr::Path')(r[0]) and r[1] == 'Ok(path.path.clone())':
+                guards = []
+                for c_ in r[2].ctx:
+                    if c_['k'] == 'arm' and c_.get('guard') is not None:
+                        guards.append(es(c_['guard']).replace(' ', ''))
+                    if c_['k'] == 'if':
+                        guards.append(('' if c_['pol'] else '!') + es(c_['cond']).replace(' ', ''))
+                okq = any('qself.is_none()' in g and not g.startswith('!') for g in guards) or any(g.startswith('!') and 'qself.is_some()' in g for g in guards)
+                if okq:
+                    rep.ok('HELP', fpath[0].qname + '|p=path only without a qualified self')
+                else:
+                    rep.bad('HELP', fpath[0].qname, 'p=<T as Tr>::f', '`p = <T as Trait>::f` is accepted and silently reduced to `Trait::f` (the `qself` of the expression path is dropped): the '
+                            'generated code calls a different function than the one named; `p(<T as Trait>::f)` and the string form refuse it', fpath[0].file, r[2].line)
     # ---- isize ------------------------------------------------------------------------------
     meta_2('meta_2_isize', 'meta_name_value_2_isize', False, [
         ('p("n")', lambda ks: LIST(ks) and ks[-1:] == ('Lit::Str',), lambda v: v.startswith('str.value().parse::<isize>()'), '`p("-3")` must parse the string as isize'),
